@@ -39,7 +39,8 @@ CLAIM = dict(
           "reliable in this check (loss/reordering is C06/C07; alloc_rtr is not idempotent under retransmission)."),
     technique="Lean 4 theorems over a hand-written model + differential correspondence + Lean spec as oracle")
 
-THEOREMS = ["routes_enum_documented"]
+THEOREMS = ["routes_enum_documented", "traverse_exact", "tables_exact", "multisource_iff", "tables_total",
+            "tables_spec", "rte_roundtrip", "route_word_bits"]
 
 RULE = ("pure cases = forests of 1-6 nets on a 4x4 torus: random branching trees/chains with vertex leaves (core route, link "
         "route or None), key/mask drawn from a pool of 1-3 so nets share them, later nets re-using (copying) subtrees of "
@@ -53,6 +54,7 @@ RULE = ("pure cases = forests of 1-6 nets on a 4x4 torus: random branching trees
 
 LINK_VEC = simmachine.LINK_VEC
 W = H = 4
+FW = FH = 7      # torus the forests live on
 
 # --------------------------------------------------------------------------------------------
 # pure half
@@ -80,7 +82,7 @@ def gen_tree(rng, chip, depth, budget, shape):
                 break
             budget[0] -= 1
             dx, dy = LINK_VEC[l]
-            nxt = [(chip[0] + dx) % W, (chip[1] + dy) % H]
+            nxt = [(chip[0] + dx) % FW, (chip[1] + dy) % FH]
             kids.append([l, gen_tree(rng, nxt, depth - 1, budget, shape)])
     elif not kids:
         kids.append([6 + rng.randrange(18), None])
@@ -111,9 +113,9 @@ def gen_forest(rng):
         shape = rng.choice(["chain", "bushy", "bushy", "small"])
         depth = {"chain": rng.randrange(1, 7), "bushy": rng.randrange(1, 4), "small": rng.randrange(0, 2)}[shape]
         same = [n for n in nets if (n["key"], n["mask"]) == (key, mask)]
-        mode = rng.choice(["fresh", "fresh", "join", "join", "clash"]) if same else "fresh"
+        mode = rng.choice(["fresh", "fresh", "join", "join", "join", "join", "clash"]) if same else "fresh"
         if mode == "fresh":
-            tree = gen_tree(rng, [rng.randrange(W), rng.randrange(H)], depth, [rng.randrange(1, 12)], shape)
+            tree = gen_tree(rng, [rng.randrange(FW), rng.randrange(FH)], depth, [rng.randrange(1, 12)], shape)
         else:
             # a new net that reaches a node of an earlier net with the same key/mask and continues with a copy
             # of that net's subtree (merge: same out set, new source) or a copy changed in one place (clash)
@@ -135,19 +137,23 @@ def gen_forest(rng):
             if how < 0.25:
                 tree = sub                      # a second root on the same chip
             else:
-                l = rng.randrange(6)
-                dx, dy = LINK_VEC[l]
-                src = [(sub["c"][0] - dx) % W, (sub["c"][1] - dy) % H]
+                occupied = {tuple(t["c"]) for n in same for t in tree_nodes(n["tree"])}
+                for _ in range(4):      # prefer entering from a chip no net with this key uses
+                    l = rng.randrange(6)
+                    dx, dy = LINK_VEC[l]
+                    src = [(sub["c"][0] - dx) % FW, (sub["c"][1] - dy) % FH]
+                    if tuple(src) not in occupied:
+                        break
                 tree = {"c": src, "k": [[l, sub]] + ([[6 + rng.randrange(18), None]] if rng.random() < 0.3 else [])}
                 if how > 0.7:
                     l2 = rng.randrange(6)
                     dx, dy = LINK_VEC[l2]
-                    tree = {"c": [(src[0] - dx) % W, (src[1] - dy) % H], "k": [[l2, tree]]}
+                    tree = {"c": [(src[0] - dx) % FW, (src[1] - dy) % FH], "k": [[l2, tree]]}
         nets.append({"key": key, "mask": mask, "tree": tree})
     if rng.random() < 0.04:
         # malformed stream: a subtree under route None (assert) or under a core route (ValueError in .opposite)
         victim = rng.choice(tree_nodes(rng.choice(nets)["tree"]))
-        sub = {"c": [rng.randrange(W), rng.randrange(H)], "k": [[7, None]]}
+        sub = {"c": [rng.randrange(FW), rng.randrange(FH)], "k": [[7, None]]}
         victim["k"].append([None if rng.random() < 0.5 else 6 + rng.randrange(18), sub])
     return {"kind": "forest", "nets": nets, "links_enum": rng.random() < 0.3}
 
@@ -230,6 +236,8 @@ def eval_forests(ctx, cases):
         ctx.traces += 1
         wf = all(wellformed(n["tree"]) for n in c["nets"])
         ctx.tag("forest_" + ("ok" if "ok" in impl else impl["err"][0]) + ("" if wf else "_malformed"))
+        if "ok" in impl and shares(c):
+            ctx.tag("forest_ok_with_merge")
         if norm_tables(impl) != norm_tables(model):
             ctx.mismatch("c10.tables", "impl=%r model=%r" % (str(impl)[:300], str(model)[:300]), c)
         elif impl != model and "ok" in impl:
